@@ -74,6 +74,8 @@ pub fn run(prop: &str, tier: &str, seed: u64) -> i32 {
             return 2;
         }
     };
+    // shards count the descriptions they touch: replace the sum by the number of compiled descriptions
+    partial.programs = (built.batch.descs.len() - built.skip.len()) as u64;
     partial.notes.push(format!("{} descriptions dropped before the build (compiler refused them: C10's business), {} dropped by rustc", dropped, built.build_rejects.len()));
     let v = Verdict {
         property: prop.into(),
